@@ -609,6 +609,8 @@ def _dohist(data, dmin, s, binsize, hist, revind=None):
 
     nbin = hist.size
     offset = nbin + 1
+    # offset just past the last datum that was counted
+    end_offset = offset
     i = 0
     binnum_old = -1
 
@@ -630,6 +632,7 @@ def _dohist(data, dmin, s, binsize, hist, revind=None):
 
             hist[binnum] += 1
             binnum_old = binnum
+            end_offset = offset + 1
 
         i += 1
         offset += 1
@@ -638,7 +641,9 @@ def _dohist(data, dmin, s, binsize, hist, revind=None):
         # Fill in the last ones
         tbin = binnum_old + 1
         while tbin <= nbin:
-            revind[tbin] = revind.size
+            # data past the last valid bin are not counted, so they must
+            # not appear in the slice of the last occupied bin
+            revind[tbin] = end_offset
             tbin += 1
 
 
